@@ -204,12 +204,20 @@ class Program:
                 self.classes[c.name] = c
         self._consulted = set()
         self._scopes = {}
-        # helpers that did not exist when the rules were written are inlined away (rkverif/inline.py)
-        try:
-            from .inline import inline_new_helpers
-            self.inlining = inline_new_helpers(self)
-        except RecursionError:
-            self.inlining = {"enabled": False, "error": "recursion"}
+        # normalisation of the trees before any rule runs (rkverif/canon.py, rkverif/inline.py):
+        # renamed private helpers get their known name back, equivalent statement idioms are brought to one
+        # form, helpers that did not exist when the rules were written are inlined away
+        self.normalisation = {}
+        if os.environ.get("RKVERIF_RAW") != "1":
+            try:
+                from .inline import inline_new_helpers, known_names
+                from .canon import unrename, canonicalise
+                self.normalisation["unrenamed"] = unrename(self, known_names())
+                self.normalisation["canonicalised"] = canonicalise(self)
+                self.inlining = inline_new_helpers(self)
+                self.normalisation["inlining"] = self.inlining
+            except RecursionError:
+                self.inlining = {"enabled": False, "error": "recursion"}
 
     # -- lookup -------------------------------------------------------------
     def module(self, short):
